@@ -505,3 +505,16 @@ func (st *State) InputVector(m *Model) []uint64 {
 	}
 	return out
 }
+
+// NumReached returns how many reach labels the path hit.
+func (st *State) NumReached() int { return len(st.reached) }
+
+// ReachedLabels lists the reach labels of the path, sorted.
+func (st *State) ReachedLabels() []string {
+	out := make([]string, 0, len(st.reached))
+	for k := range st.reached {
+		out = append(out, k)
+	}
+	sort.Strings(out)
+	return out
+}
